@@ -13,10 +13,10 @@
 namespace scn {
 
 enum { AM_DETACH_DISCARD = 0, AM_DETACH_AWAIT, AM_START, AM_START_PROMISE, AM_START_CLAIMED, AM_CO_AWAIT, AM_JOIN, AM_FUTURE_CTOR, AM_FUTURE_FN, AM_POOL_RUN,
-       AM_NEVER_STARTED, AM_START_PROMISE_RV, AM_NMODES };
+       AM_NEVER_STARTED, AM_START_PROMISE_RV, AM_FUTURE_CTOR_LVALUE, AM_POOL_RUN_LVALUE, AM_NMODES };
 inline const char *am_name(int m) {
     static const char *n[] = {"detach (discarded)", "detach (awaited)", "start()", "start(promise&)", "start(claimed promise)", "co_await", "join()",
-                              "future<T>(async)", "future<T> function", "thread_pool::run", "never started", "start(promise&&)"};
+                              "future<T>(async)", "future<T> function", "thread_pool::run", "never started", "start(promise&&)", "future<T>(async lvalue)", "thread_pool::run(async lvalue)"};
     return n[m];
 }
 enum { AC_VALUE = 0, AC_THROW, AC_SUSPEND_VALUE, AC_SUSPEND_THROW };
@@ -77,6 +77,13 @@ template <typename T> cocls::future<T> c4_future_fn(c4_ctx &X, tracked arg) {
     if constexpr (std::is_void_v<T>) co_return; else co_return c4_value<T>(inner);
 }
 
+// the coroutine OBJECT travels through move constructions before it is used (moved-from objects must not own the frame any more)
+template <typename T> cocls::async<T> c4_moved(cocls::async<T> a, int times) {
+    if (times <= 0) return a;
+    cocls::async<T> b(std::move(a));
+    return c4_moved<T>(std::move(b), times - 1);
+}
+
 template <typename T> struct c4_result { outcome got; bool have = false; int start_reported = -1; };
 
 // driver coroutine for the modes that need coroutine context
@@ -106,10 +113,12 @@ void async_program(const vf::opts &o, vf::report &R, uint64_t pn, vf::rng &r, co
     X.throw_level = throws ? (int)r.below((uint32_t)X.depth) : -1;
     if constexpr (std::is_same_v<T, vf::tracked_thr>) { if (!throws && r.chance(1, 2)) X.bomb_level = (int)r.below((uint32_t)X.depth); }
     bool other_thread = r.chance(1, 3);
+    int premoves = r.chance(1, 3) ? 1 + (int)r.below(2) : 0;
+    auto MK = [&]() { return c4_moved<T>(c4_body<T>(X, 0, tracked(1)), premoves); };
     bool suspends = X.completion >= AC_SUSPEND_VALUE;
     if (mode == AM_FUTURE_FN && false) X.depth = 1;
     std::string desc = std::string(ftype_name<T>()) + " / " + am_name(mode) + " / " + ac_name(X.completion) + " / depth " + std::to_string(X.depth) +
-                       (throws ? " throw@" + std::to_string(X.throw_level) : "") + (X.bomb_level >= 0 ? " unconstructible-result@" + std::to_string(X.bomb_level) : "") + (suspends ? (other_thread ? " / finished by another thread" : " / finished by the same thread") : "");
+                       (premoves ? " / object moved " + std::to_string(premoves) + "x" : "") + (throws ? " throw@" + std::to_string(X.throw_level) : "") + (X.bomb_level >= 0 ? " unconstructible-result@" + std::to_string(X.bomb_level) : "") + (suspends ? (other_thread ? " / finished by another thread" : " / finished by the same thread") : "");
     vf::set_crash_ctx(R.prop.c_str(), "async_programs", o.seed, pn, desc.c_str());
     long live0 = tracked::live.load(), bad0 = tracked::bad.load();
     c4_result<T> res;
@@ -128,14 +137,14 @@ void async_program(const vf::opts &o, vf::report &R, uint64_t pn, vf::rng &r, co
         std::unique_ptr<cocls::future<T>> fut;
         std::atomic<int> driver_done{0};
         switch (mode) {
-        case AM_DETACH_DISCARD: bound = false; c4_body<T>(X, 0, tracked(1)).detach(); open_later(); break;
+        case AM_DETACH_DISCARD: bound = false; MK().detach(); open_later(); break;
         case AM_DETACH_AWAIT: bound = false; c4_driver<T>(X, mode, res, driver_done).detach(); open_later(); break;
-        case AM_START: fut = std::unique_ptr<cocls::future<T>>(new cocls::future<T>(c4_body<T>(X, 0, tracked(1)).start())); open_later(); break;
+        case AM_START: fut = std::unique_ptr<cocls::future<T>>(new cocls::future<T>(MK().start())); open_later(); break;
         case AM_START_PROMISE:
         case AM_START_PROMISE_RV: {
             fut = std::make_unique<cocls::future<T>>();
             cocls::promise<T> p = fut->get_promise();
-            cocls::async<T> a = c4_body<T>(X, 0, tracked(1));
+            cocls::async<T> a = MK();
             bool ok = mode == AM_START_PROMISE ? (bool)a.start(p) : (bool)a.start(std::move(p));
             res.start_reported = ok;
             if (!ok) err = "start(promise) reported false on an unclaimed promise";
@@ -148,7 +157,7 @@ void async_program(const vf::opts &o, vf::report &R, uint64_t pn, vf::rng &r, co
             cocls::promise<T> p = fut->get_promise();
             cocls::promise<T> thief = std::move(p); // p is claimed now
             {
-                cocls::async<T> a = c4_body<T>(X, 0, tracked(1));
+                cocls::async<T> a = MK();
                 bool ok = a.start(p);
                 res.start_reported = ok;
                 if (ok) err = "start(promise) reported true on an already claimed promise";
@@ -161,16 +170,28 @@ void async_program(const vf::opts &o, vf::report &R, uint64_t pn, vf::rng &r, co
         case AM_JOIN: {
             open_before_blocking();
             try {
-                if constexpr (std::is_void_v<T>) { c4_body<T>(X, 0, tracked(1)).join(); res.got.state = PS_VALUE; }
-                else { T v = c4_body<T>(X, 0, tracked(1)).join(); res.got.state = PS_VALUE; res.got.val = c4_id(v); }
+                if constexpr (std::is_void_v<T>) { MK().join(); res.got.state = PS_VALUE; }
+                else { T v = MK().join(); res.got.state = PS_VALUE; res.got.val = c4_id(v); }
             } catch (const vf::test_exc &e) { res.got.state = PS_EXC; res.got.code = e.code; }
             res.have = true;
             break;
         }
-        case AM_FUTURE_CTOR: fut = std::unique_ptr<cocls::future<T>>(new cocls::future<T>(c4_body<T>(X, 0, tracked(1)))); open_later(); break;
+        case AM_FUTURE_CTOR: fut = std::unique_ptr<cocls::future<T>>(new cocls::future<T>(MK())); open_later(); break;
         case AM_FUTURE_FN: fut = std::unique_ptr<cocls::future<T>>(new cocls::future<T>(c4_future_fn<T>(X, tracked(1)))); open_later(); break;
-        case AM_POOL_RUN: fut = std::unique_ptr<cocls::future<T>>(new cocls::future<T>(pool.run(c4_body<T>(X, 0, tracked(1))))); open_later(); break;
-        case AM_NEVER_STARTED: { started = false; bound = false; cocls::async<T> a = c4_body<T>(X, 0, tracked(1)); (void)a; X.open_gate(); break; }
+        case AM_POOL_RUN: fut = std::unique_ptr<cocls::future<T>>(new cocls::future<T>(pool.run(MK()))); open_later(); break;
+        case AM_FUTURE_CTOR_LVALUE: { // the named coroutine object stays in scope after the future took the coroutine over
+            cocls::async<T> a = MK();
+            fut = std::unique_ptr<cocls::future<T>>(new cocls::future<T>(a));
+            open_later();
+            break;
+        }
+        case AM_POOL_RUN_LVALUE: {
+            cocls::async<T> a = MK();
+            fut = std::unique_ptr<cocls::future<T>>(new cocls::future<T>(pool.run(a)));
+            open_later();
+            break;
+        }
+        case AM_NEVER_STARTED: { started = false; bound = false; cocls::async<T> a = MK(); (void)a; X.open_gate(); break; }
         }
         if (helper.joinable()) helper.join();
         if (fut) {
@@ -183,7 +204,7 @@ void async_program(const vf::opts &o, vf::report &R, uint64_t pn, vf::rng &r, co
         if ((mode == AM_CO_AWAIT || mode == AM_DETACH_AWAIT) && !driver_done.load(std::memory_order_acquire) && err.empty()) err = "driver coroutine did not finish";
     }
     X.open_gate();
-    if (mode == AM_POOL_RUN) { // the frame is destroyed by the pool thread right AFTER it resolved the future: give it time (monitor read, bounded)
+    if (mode == AM_POOL_RUN || mode == AM_POOL_RUN_LVALUE) { // the frame is destroyed by the pool thread right AFTER it resolved the future: give it time (monitor read, bounded)
         uint64_t t0 = vf::rdtsc();
         while (tracked::live.load() != live0 && vf::rdtsc() - t0 < 6000000000ull) std::this_thread::yield();
     }
